@@ -47,26 +47,27 @@ func (k Kind) IsScalar() bool   { return k >= Str && k <= FltOpt }
 
 // OptDef declares one option.
 type OptDef struct {
-	Name       string   `json:"name"`
-	Aliases    []string `json:"aliases,omitempty"`
-	Kind       Kind     `json:"kind"`
-	DefB       bool     `json:"defb,omitempty"`
-	DefI       int      `json:"defi,omitempty"`
-	DefF       float64  `json:"deff,omitempty"`
-	DefS       string   `json:"defs,omitempty"`
-	Min        int      `json:"min,omitempty"`
-	Max        int      `json:"max,omitempty"`
-	Required   bool     `json:"required,omitempty"`
-	ReqMsg     string   `json:"reqmsg,omitempty"`
-	Env        string   `json:"env,omitempty"`
-	Var        bool     `json:"var,omitempty"` // declare through the *Var form
-	SetCalled  bool     `json:"setcalled,omitempty"`
-	Suggested  []string `json:"suggested,omitempty"`
-	Valid      []string `json:"valid,omitempty"`
-	SuggestFn  bool     `json:"suggestfn,omitempty"`
-	Desc       string   `json:"desc,omitempty"`
-	ArgName    string   `json:"argname,omitempty"`
-	SplitAlias bool     `json:"split_alias,omitempty"` // one opt.Alias(...) modifier per alias instead of a single call
+	Name       string      `json:"name"`
+	Aliases    []string    `json:"aliases,omitempty"`
+	Kind       Kind        `json:"kind"`
+	DefB       bool        `json:"defb,omitempty"`
+	DefI       int         `json:"defi,omitempty"`
+	DefF       float64     `json:"deff,omitempty"`
+	DefS       string      `json:"defs,omitempty"`
+	Min        int         `json:"min,omitempty"`
+	Max        int         `json:"max,omitempty"`
+	Required   bool        `json:"required,omitempty"`
+	ReqMsg     string      `json:"reqmsg,omitempty"`
+	Env        string      `json:"env,omitempty"`
+	Var        bool        `json:"var,omitempty"` // declare through the *Var form
+	SetCalled  bool        `json:"setcalled,omitempty"`
+	Suggested  []string    `json:"suggested,omitempty"`
+	Valid      []string    `json:"valid,omitempty"`
+	SuggestFn  bool        `json:"suggestfn,omitempty"`
+	Desc       string      `json:"desc,omitempty"`
+	ArgName    string      `json:"argname,omitempty"`
+	SplitAlias bool        `json:"split_alias,omitempty"` // one opt.Alias(...) modifier per alias instead of a single call
+	Preset     [][2]string `json:"preset,omitempty"`      // map kind, *Var form: entries the caller's map already holds when it is declared
 }
 
 // CmdDef declares one command level (the root is a CmdDef too).
@@ -511,6 +512,12 @@ func declare(opt *getoptions.GetOpt, o *OptDef, path string, p *Prog) *optHandle
 	case Map:
 		if o.Var {
 			h.pmv = new(map[string]string)
+			if len(o.Preset) > 0 {
+				*h.pmv = map[string]string{}
+				for _, kv := range o.Preset {
+					(*h.pmv)[kv[0]] = kv[1]
+				}
+			}
 			opt.StringMapVar(h.pmv, o.Name, o.Min, o.Max, fns...)
 		} else {
 			h.pm = opt.StringMap(o.Name, o.Min, o.Max, fns...)
